@@ -2,15 +2,15 @@
 # applies each behaviour-preserving patch under selftest/benign to a scratch worktree and runs all 20 checks: every check must stay silent
 cd "$(dirname "$0")/.."
 V=$(pwd); WT=/tmp/wt_benign_$$; VS=/tmp/vs_benign_$$
-for f in ${1:-selftest/benign/*.diff}; do
+for f in ${@:-selftest/benign/*.diff}; do
   git -C /repo worktree remove --force $WT 2>/dev/null; rm -rf $WT $VS
   git -C /repo worktree add -q --detach $WT HEAD || exit 2
-  mkdir -p $VS; cp known_findings.txt $VS/
+  mkdir -p $VS/out; cp known_findings.txt $VS/
   if ! git -C $WT apply $V/$f 2>/dev/null && ! git -C $WT apply $f; then echo "$f: DOES NOT APPLY"; continue; fi
+  printf '%s\n' C01 C02 C03 C04 C05 C06 C07 C08 C09 C10 C11 C12 C13 C14 C15 C16 C17 C18 C19 C20 | VERIF_REPO=$WT VERIF_OUT=$VS xargs -P 10 -I{} sh -c "timeout 900 ./check {} > $VS/out/{}.txt 2>&1"
   alarms=""
   for p in C01 C02 C03 C04 C05 C06 C07 C08 C09 C10 C11 C12 C13 C14 C15 C16 C17 C18 C19 C20; do
-    out=$(VERIF_REPO=$WT VERIF_OUT=$VS timeout 900 ./check $p 2>&1)
-    if echo "$out" | grep -q "VIOLATION property="; then alarms="$alarms $p"; echo "$out" | grep -v "^VIOLATION\|^KNOWN\|^NOTE" | head -2 | cut -c1-260 | sed "s|^|    [$p] |"; fi
+    if grep -q "VIOLATION property=" $VS/out/$p.txt || ! grep -q "^$p: tier=" $VS/out/$p.txt; then alarms="$alarms $p"; grep -v "^VIOLATION\|^KNOWN\|^NOTE" $VS/out/$p.txt | head -${BENIGN_LINES:-2} | cut -c1-${BENIGN_COLS:-260} | sed "s|^|    [$p] |"; fi
   done
   echo "$f: ${alarms:-silent}"
 done
